@@ -361,11 +361,17 @@ def check_case(pyhf, case, backend, precision, props, rng, model_cache):
         try:
             gotb = tl.tolist(model_b.expected_actualdata(rows))
             single = [tl.tolist(model.expected_actualdata(r)) for r in rows]
+            fullb = tl.tolist(model_b.expected_data(rows))
+            fulls = [tl.tolist(model.expected_data(r)) for r in rows]
         except Exception as e:
             F.append(Finding("C10", f"batched evaluation failed: {type(e).__name__}: {e}", {"case": slim}, tags_base + ["evalfail"]))
         else:
             det = {"case": slim, "rows": rows, "batched": gotb, "single": single}
-            if len(gotb) != 2 or any(len(r) != cfg.nmaindata for r in gotb):
+            if len(fullb) != 2 or any(len(a) != len(b) or any(not (x == y or abs(x - y) <= tol * max(1.0, abs(y))) for x, y in zip(a, b))
+                                       for a, b in zip(fullb, fulls)):
+                F.append(Finding("C10", "batched expected_data (main + auxiliary) differs from the unbatched rows",
+                                 dict(det, full_batched=fullb, full_single=fulls), tags_base + ["fullrows"]))
+            elif len(gotb) != 2 or any(len(r) != cfg.nmaindata for r in gotb):
                 F.append(Finding("C10", "batch dimension is not the leading one", det, tags_base + ["shape"]))
             else:
                 for r in range(2):
